@@ -7,7 +7,7 @@ sys.path.insert(0, os.path.join(VERIF, "selftest"))
 import specs
 only = set(sys.argv[1:])
 n = 0
-for m in specs.MUTANTS:
+for m in specs.MUTANTS + getattr(specs, 'BENIGN', []):
     if only and m["prop"] not in only and m["name"] not in only:
         continue
     out = []
